@@ -1,4 +1,5 @@
 ---- MODULE MC_Gossip ----
 EXTENDS Gossip
 MC_Cluster == [n \in Node |-> "c"]
+MC_ClusterSplit == [n \in Node |-> IF n = "n3" THEN "C" ELSE "c"]
 ====
